@@ -1,7 +1,7 @@
 //! C11 — complement, converse, union and vertex filtering compute their set
 //! definitions, in every representation, for every worker-thread count.
 
-use super::c17::{draw_map_pair, draw_order, run_top};
+use super::c17::{draw_map_pair, draw_order, draw_order_tail, run_top};
 use super::{draw_sched, relation_class};
 use crate::core::{Lane, Scenario, Stats, Tier, Violation};
 use crate::exec::Conf;
@@ -165,13 +165,13 @@ impl Lane for C11 {
         };
         let max = if rng.chance(1, 5) { max } else { max.min(20) };
         let (d, e) = if rng.chance(1, 2) {
-            let n1 = draw_order(rng, max);
+            let n1 = draw_order_tail(rng, max).min(200);
             let n2 = match rng.below(4) {
                 0 => n1,
                 1 => rng.range(1, n1),
                 _ => draw_order(rng, max),
             };
-            let (p1, p2) = (draw_density(rng), draw_density(rng));
+            let (p1, p2) = if n1 > 100 { (15, 30) } else { (draw_density(rng), draw_density(rng)) };
             (random_dg(rng, n1, p1), random_dg(rng, n2, p2))
         } else {
             draw_map_pair(rng, max.min(40))
@@ -183,7 +183,7 @@ impl Lane for C11 {
             let _ = keep.insert(*rng.pick(&verts));
         }
         if rng.chance(1, 3) {
-            let _ = keep.insert(verts[verts.len() - 1] + 1 + rng.below(3));
+            let _ = keep.insert(verts[verts.len() - 1].saturating_add(1 + rng.below(3)));
         }
         let rows = d.order().max(e.order());
         let nconf = match tier {
